@@ -57,16 +57,17 @@ type selRec struct {
 // selABI answers VerifyTransaction / ExecuteTransaction per transaction ID and records the order of the calls.
 type selABI struct {
 	exh.ABI
-	verdict map[string]int
-	variant map[string]int
-	code    map[string]uint64
-	trace   []uint64
+	verdict  map[string]int
+	variant  map[string]int
+	code     map[string]uint64
+	trace    []uint64
+	executed int // transactions executed successfully so far (the state the next outcome may depend on)
 }
 
 func (m *selABI) VerifyTransaction(req *labi.VerifyTransactionRequest) (*labi.VerifyTransactionResponse, error) {
 	id := string(req.Transaction.ID)
 	m.trace = append(m.trace, m.code[id])
-	if m.verdict[id] == 0 {
+	if m.verdict[id] == 0 || (m.verdict[id] == 3 && m.executed%2 == 1) {
 		switch m.variant[id] % 3 {
 		case 0:
 			return nil, fmt.Errorf("scripted verify error")
@@ -81,12 +82,13 @@ func (m *selABI) VerifyTransaction(req *labi.VerifyTransactionRequest) (*labi.Ve
 
 func (m *selABI) ExecuteTransaction(req *labi.ExecuteTransactionRequest) (*labi.ExecuteTransactionResponse, error) {
 	id := string(req.Transaction.ID)
-	if m.verdict[id] == 1 {
+	if m.verdict[id] == 1 || (m.verdict[id] == 4 && m.executed%2 == 0) {
 		if m.variant[id]%2 == 0 {
 			return nil, fmt.Errorf("scripted execute error")
 		}
 		return &labi.ExecuteTransactionResponse{Result: labi.TxExecuteResultInvalid}, nil
 	}
+	m.executed++
 	if m.variant[id]%2 == 0 {
 		return &labi.ExecuteTransactionResponse{Result: labi.TxExecuteResultFail}, nil // failed but included
 	}
@@ -184,11 +186,15 @@ func genSel(o *hx.Out, r *hx.Rng, n int) {
 				rec.PLen = append(rec.PLen, plen)
 				rec.Var = append(rec.Var, r.Intn(6))
 				v := uint64(2)
-				switch r.Intn(10) {
+				switch r.Intn(12) {
 				case 0, 1:
 					v = 0
 				case 2:
 					v = 1
+				case 3, 4:
+					v = 3 // verification succeeds only after an even number of executed transactions
+				case 5:
+					v = 4 // execution succeeds only after an odd number
 				}
 				rec.Script = append(rec.Script, [2]uint64{code, v})
 				code++
